@@ -85,6 +85,25 @@ def gen_overrun(rng, k, sms):
             'nblock': nblock, 'dur': dur}
 
 
+def gen_late(rng, k, sms):
+    """the init / exit timeout that holds on kept-alive workers is the one of the most recent call: (late) call 1 has no
+    worker_exit_timeout, call 2 sets one and worker_exit blocks -> stop_and_join raises TimeoutError promptly; (raised) call 1
+    has a short worker_exit_timeout, call 2 raises it far above what worker_exit takes -> no TimeoutError"""
+    sm = [m for m in sms if m != 'threading'][k % 3]
+    mode = ['late', 'raised'][k % 2]
+    t = 0.5
+    mk = lambda base, to: {'kind': rng.choice(['map', 'map_unordered', 'imap', 'imap_unordered']), 'n': 4, 'input': 'list', 'elem': 'scalar',
+                           'base': base, 'exit': True, 'params': dict({'chunk_size': 1}, **({'worker_exit_timeout': to} if to else {}))}
+    if mode == 'late':
+        calls = [mk(1000, None), {'kind': 'sleep', 's': 2 * t}, mk(2000, t), {'kind': 'stop_and_join'}]
+        beh = {'exit': [{'do': 'block', 's': 40, 'worker': w} for w in range(2)]}
+    else:
+        calls = [mk(1000, 0.3), {'kind': 'sleep', 's': 0.6}, mk(2000, 30), {'kind': 'stop_and_join'}]
+        beh = {'exit': [{'do': 'sleep', 's': 1.5, 'worker': w} for w in range(2)]}
+    return {'id': f'v{k}', 'pool': {'n_jobs': 2, 'start_method': sm, 'keep_alive': True}, 'calls': calls, 'budget': 60, 'behaviour': beh,
+            'mode': 'kept:' + mode, 't': t}
+
+
 def gen_burst(rng, k):
     return {'id': f'u{k}', 'pool': {'n_jobs': 2, 'start_method': 'fork'}, 'budget': 150, 'behaviour': {}, 'mode': 'burst', 't': 0.5,
             'env': {'MPIRE_VERIF_TRACE': '0'},
@@ -105,6 +124,26 @@ def oracle(rec):
                     f"ended as {b.get('result')} (ready={b['ready']}) after {b['elapsed']:.1f}s: the timeout never fired")
         if b['elapsed'] > 0.5 + slack('fork'):
             return f"burst: TimeoutError only after {b['elapsed']:.1f}s"
+        return None
+    if sc['mode'].startswith('kept:'):
+        sm = sc['pool']['start_method']
+        for c, o in zip(sc['calls'], res['calls']):
+            if 'n' in c:
+                if o.get('outcome') != 'ok':
+                    return f"{sc['mode']}: map call base={c['base']} raised {o['exc']['type']}: {o['exc']['args'][:100]}"
+                msg = S.check_value(c, o)
+                if msg:
+                    return f"{sc['mode']}: {msg}"
+            elif c['kind'] == 'stop_and_join':
+                if sc['mode'] == 'kept:late':
+                    if o.get('outcome') != 'exc' or o['exc']['type'] != 'TimeoutError':
+                        return (f"kept-alive workers, worker_exit_timeout={sc['t']} introduced by the SECOND call, worker_exit blocks: "
+                                f"stop_and_join ended as {o.get('outcome')} {o.get('exc', {}).get('type')} - the timeout in force is not enforced")
+                    if o['wall'] > sc['t'] + slack(sm):
+                        return f"kept:late: TimeoutError only after {o['wall']:.1f}s"
+                elif o.get('outcome') != 'ok':
+                    return (f"kept-alive workers, worker_exit_timeout raised from 0.3 to 30 by the second call, worker_exit takes 1.5 s: "
+                            f"stop_and_join raised {o['exc']['type']}: {o['exc']['args'][:100]} - a timeout of an EARLIER call fired")
         return None
     if 'pool_exc' in res:
         return f"{sc['mode']}: leaving the pool raised {res['pool_exc']['type']}: {res['pool_exc']['args'][:120]}"
@@ -206,6 +245,7 @@ def run(ctx):
     sms = ['fork', 'fork', 'threading', 'forkserver', 'spawn']
     scens = [gen_quiet(rng, k, sms) for k in range(24 if quick else 200)]
     scens += [gen_overrun(rng, k, sms) for k in range(40 if quick else 400)]
+    scens += [gen_late(rng, k, sms) for k in range(4 if quick else 24)]
     scens += [gen_burst(rng, k) for k in range(1 if quick else 6)]
     recs = runner.run_many(scens, 'c08', jobs=8)
     bad, hangs = analyse(recs)
